@@ -42,6 +42,8 @@ EXCEPTIONS = [
     # ---- detector -------------------------------------------------------------------------------
     dict(fn="detector::locate_sourcemap_reference", what="index", desc="String::as_bytes(*)[RangeFrom{start:21}]", count=1,
          reason="dominated by starts_with of one of two 21-byte ASCII prefixes (C18.R1 checks the constants, their length and the dominance)", requires=["C18.R1"]),
+    dict(fn="detector::locate_sourcemap_reference", what="index", desc="try(try(Iterator::next(var:Lines<BufReader<R>>)))[RangeFrom{start:21}]", count=1, optional=True,
+         reason="the same cut taken on the str: dominated by starts_with of one of two 21-byte ASCII prefixes, so 21 <= len and 21 is a char boundary (C18.R1 checks the constants, their length and the dominance)", requires=["C18.R1"]),
     # ---- encoder ----------------------------------------------------------------------------------
     dict(fn="encoder::encode_rmi", what="index", desc="BitView::view_bits(arg2)[RangeTo{end:Add(1,var:usize)}]", count=1,
          reason="last is an enumerate() index over the bits of data, and encode_rmi is only called with the non-empty buffer a range bit was just written to (C07.R2), so last + 1 <= bits.len()", requires=["C07.R2"]),
@@ -60,6 +62,9 @@ EXCEPTIONS = [
          reason="prev_dst_line is advanced only while it differs from the token's line; tokens are ordered (C04.R1/R2)", requires=["C04.R1", "C04.R2"]),
     # ---- hermes -------------------------------------------------------------------------------------
     dict(fn="hermes::decode_hermes::{closure#0}", what="Overflow:Add:i64", desc="from<i64>(var:u32),*Iterator::next(var:Copied<Iter<i64>>)*", count=3,
+         reason="VLQ values have magnitude <= 2^62 (reader shape, C11.R2r); a widened u32 is < 2^32", requires=["C11.R2r"]),
+    # ---- js identifiers ---------------------------------------------------------------------------------
+    dict(fn="hermes::decode_hermes::{closure#0}", what="Overflow:Add:i64", desc="from<i64>(var:u32),*^var:Vec<i64>*", count=3,
          reason="VLQ values have magnitude <= 2^62 (reader shape, C11.R2r); a widened u32 is < 2^32", requires=["C11.R2r"]),
     # ---- js identifiers ---------------------------------------------------------------------------------
     dict(fn="js_identifiers::strip_identifier", what="index", desc="arg1[RangeTo{end:var:usize}]", count=1,
